@@ -119,6 +119,16 @@ DESCR = {
  "C14-f": ("activeTCPConn frames in place in a receiveMTU-sized buffer", "payload of exactly 8191 or 8192 bytes over active TCP"),
  "C15-e": ("first-frame buffer of handleConn recycled through a sync.Pool while still queued", "first frame of A unread (provisional conn) when another connection's handleConn reuses the buffer"),
  "C15-f": ("closing one of two local-address conns of a ufrag drops the whole per-ufrag map", "same ufrag registered on two local IPs of a wildcard listener; one closed; a new client on the other"),
+ "C16-e": ("the parser strips the IPv6 zone from the related address while Marshal writes it verbatim", "srflx/prflx/relay built through a constructor with RelAddr 'fe80::…%eth0'"),
+ "C16-f": ("related-address equality treats the receiver's rport 0 as a wildcard (asymmetric Equal)", "two candidates identical except for the related port, exactly one of them 0"),
+ "C17-e": ("AgentConfig.TCPPriorityOffset pointing at 0 is treated as unset (default 27 applies)", "agent built through NewAgent(&AgentConfig{TCPPriorityOffset: &zero}) with a TCP candidate attached"),
+ "C17-f": ("computed foundation also hashes the related address", "two srflx/prflx/relay candidates of equal type, address and network type built with different RelAddr"),
+ "C18-e": ("relay gatherer ignores an IP-only filter (TURN client socket on the wildcard address)", "relay enabled, TURN/UDP URL, IP filter set, no interface filter"),
+ "C18-f": ("a loopback remote passive TCP candidate overrides IncludeLoopback=false", "TCP network type, IncludeLoopback off, AddRemoteCandidate with a passive TCP candidate on 127.0.0.1 / ::1"),
+ "C19-e": ("findIfaceForIP compares netip addresses without Unmap: 16-byte IPv4 never matches", "relay rule with Iface set on the real gatherCandidatesRelay path"),
+ "C19-f": ("zero-length CIDR prefixes (0.0.0.0/0, ::/0) are not stored on the rule", "a /0 rule plus an other-family lookup / external / Local, or a less specific competitor declared earlier"),
+ "C20-e": ("controlled agent sends no triggered check for a nominated pair in state Failed once a pair is selected", "both connected; renominated pair Failed on the controlled side (its budget ran out), valid on the controlling side"),
+ "C20-f": ("WithAutomaticRenomination alone makes the agent renominate (two cooperating edits)", "controlling agent with automatic renomination but without WithRenomination; relay pair selected, host pair valid"),
 }
 res = {}
 for ln in open('/verif/.work/confirm_results.txt'):
